@@ -1624,6 +1624,9 @@ C19_LIMITS = [
     ({"max_topic_alias": 2}, "alias_over"),
     ({"max_topic_alias": 2}, "alias_at"),
     ({"max_topic_alias": 8, "ack_topic_alias_max": 1}, "alias_over"),
+    ({"max_topic_alias": 0}, "alias_over"),                           # 0 = no alias at all, not "no limit"
+    ({"max_topic_alias": 8, "ack_topic_alias_max": 0}, "alias_over"),
+    ({"max_topic_alias": 0, "ack_topic_alias_max": 1}, "alias_at"),
     ({"ack_keep_alive": 5}, "none"),
     ({"ack_keep_alive": 50}, "none"),
     ({"ack_receive_max": 3, "max_receive": 7}, "none"),
